@@ -19,8 +19,20 @@ SIBLINGS = True  # consecutive cases with identical structure and different gate
 ANCHORS = ["tx:miter", "circuit:Circuit.add_subcircuit"]
 
 
+FLIP = {"and": "nand", "nand": "and", "or": "nor", "nor": "or", "xor": "xnor", "xnor": "xor", "buf": "not", "not": "buf"}
+
+
+def gen_wide(rng):
+    """Wide interfaces: 16..40 compared endpoints; every single-endpoint mutant of the circuit is mitered against it."""
+    n = rng.choice([16, 17, 17, 18, 32, 33, 33, 34, rng.randint(17, 40)])
+    c0 = G.rand_circuit(rng, rng.randint(3, 5), n + rng.randint(0, 4), max_fanin=3, name="ca", p_const=0.1, n_outputs=n, p_large=0, p_input_output=0.0, p_const_output=0.0)
+    return {"c0": c0, "c1": None, "pair": "wide_each", "startpoints": None, "endpoints": None, "as_set": rng.random() < 0.5, "repeat": False}
+
+
 def gen(rng, ctx):
     big = ctx.tier == "thorough"
+    if rng.random() < 0.02:
+        return gen_wide(rng)
     ni = rng.randint(1, 5 if not big else 6)
     ng = rng.randint(1, 8 if not big else 12)
     c0 = G.rand_circuit(rng, ni, ng, max_fanin=4, name="ca", p_const=0.15, n_outputs=rng.randint(1, 3))
@@ -86,8 +98,26 @@ def gen(rng, ctx):
 
 
 def check(case, ctx):
+    if case["pair"] != "wide_each":
+        return check_pair(case, ctx, case["c0"], case["c1"])
+    c0d = case["c0"]
+    succ = G.cd_succs(c0d)
+    sinks = sorted(n for n, t, o in c0d["nodes"] if o and not succ.get(n) and t in FLIP)
+    ctx.count("wide_each:endpoints", len(G.cd_outputs(c0d)))
+    if len(G.cd_outputs(c0d)) % 16 == 1:
+        ctx.count("wide_each:count_1_mod_16")
+    for e in sinks[:40]:
+        c1d = {**c0d, "name": "cb", "nodes": [[n, FLIP[t] if n == e else t, o] for n, t, o in c0d["nodes"]]}
+        nv = len(ctx.violations)
+        check_pair(case, ctx, c0d, c1d)
+        ctx.count("wide_each:mutants")
+        if len(ctx.violations) > nv:
+            ctx.violations[-1]["detail"] += f" [second circuit = first with endpoint {e} inverted]"
+            return
+
+
+def check_pair(case, ctx, c0d, c1d):
     cg = ctx.cg
-    c0d, c1d = case["c0"], case["c1"]
     c0 = G.build(cg, c0d, "graph")
     c1 = G.build(cg, c1d, "graph") if c1d is not None else None
     n0 = Net.of(c0)
@@ -172,5 +202,5 @@ def check(case, ctx):
 
 
 def gates(counters, table, tier):
-    need = ["pair:role_overlap", "pair:copy", "pair:equiv", "pair:mutant", "pair:overlap", "pair:self", "single_endpoint", "untied_startpoints", "explicit_startpoints", "agree", "differ"]
+    need = ["pair:wide_each", "wide_each:count_1_mod_16", "pair:role_overlap", "pair:copy", "pair:equiv", "pair:mutant", "pair:overlap", "pair:self", "single_endpoint", "untied_startpoints", "explicit_startpoints", "agree", "differ"]
     return [f"{k} seen {counters.get(k, 0)} times" for k in need if counters.get(k, 0) < 10]
